@@ -219,13 +219,13 @@ pair1poly_pipe_init(void *arg, nni_pipe *pipe, void *pair)
 	nni_aio_init(&p->aio_get, pair1poly_pipe_get_cb, p);
 	nni_aio_init(&p->aio_put, pair1poly_pipe_put_cb, p);
 
-	if ((rv = nni_msgq_init(&p->send_queue, 2)) != 0) {
-		pair1poly_pipe_fini(p);
-		return (rv);
-	}
-
 	p->pipe = pipe;
 	p->pair = pair;
+
+	if ((rv = nni_msgq_init(&p->send_queue, 2)) != 0) {
+		// pipe_create closes, stops and finalizes the pipe
+		return (rv);
+	}
 
 	return (0);
 }
@@ -289,7 +289,9 @@ pair1poly_pipe_close(void *arg)
 	nni_list_node_remove(&p->node);
 	nni_mtx_unlock(&s->mtx);
 
-	nni_msgq_close(p->send_queue);
+	if (p->send_queue != NULL) { // NULL if pair1poly_pipe_init failed
+		nni_msgq_close(p->send_queue);
+	}
 }
 
 static void
